@@ -108,8 +108,9 @@ def keyType (t : TType) : Option FieldList := keyFields t.row t.key
 
 `TableUnion._compute_type` (hail/ir/table_ir.py) returns the type of child 0 and checks nothing; the engine (`TypeCheck.scala`)
 requires every child to have the row type and key of child 0.  The model keeps the two apart: `unionChildren` is what the front
-end passes to `TableUnion` (after the `select` it inserts for `unify=True`), `unionReported` is the type the `Table` reports,
-`unionIR` is the type the IR implies — `none` when the children disagree. -/
+end passes to `TableUnion` (after the `select` it inserts for `unify=True` whenever the ROW types are not all equal),
+`unionReported` is the type the `Table` reports, `unionIR` is the type the IR implies — `none` if the children disagreed
+(`Props/C36.lean::union_well_typed`: they never do). -/
 
 def valueFields (t : TType) : FieldList := t.row.filter (fun p => !t.key.contains p.1)
 
@@ -143,7 +144,7 @@ def unionChildren (unify : Bool) : List TType → Option (List TType)
   | t0 :: rest =>
     if rest.any (fun t => keyType t != keyType t0) || (keyType t0).isNone then none
     else if !unify then (if rest.all (fun t => t.row == t0.row) then some (t0 :: rest) else none)
-    else if rest.all (fun t => valueFields t == valueFields t0) then some (t0 :: rest)      -- nothing to unify: passed on as they are
+    else if rest.all (fun t => t.row == t0.row) then some (t0 :: rest)      -- all row types equal: passed on as they are
     else
       let ts := t0 :: rest
       let fields := (discovered ts).mapM fun n =>
